@@ -203,6 +203,24 @@ def gCsPartitionKept (s : BS) : Bool :=
 /-- guard `csPausedLost`: `Initialize` un-pauses the CloneSet and nothing records that it was paused -/
 def gCsPausedLost (u : User) : Bool := u.paused
 
+/-- guard `bgRollbackNoSurge`: the workload is back on its stable revision but the finder does not report a rollback —
+    no pod of the abandoned revision exists, so `updatedReplicas = replicas` — and the Rollout controller takes the
+    stable revision for a newer one, which blue-green refuses -/
+def rollbackUnseen (s : BS) : Bool :=
+  decide (s.world.updateRevision = s.world.currentRevision) &&
+  (match bgView s.world with
+   | some (some v) => !v.inRollback
+   | _ => false)
+
+/-- the CloneSet is still held back at the partition the admission webhook set (no `UpgradeBatch` has cleared it) while
+    a new revision waits: blue-green `Finalize` restores everything but the partition, and its wait for "all pods updated"
+    cannot end -/
+def heldBack (s : BS) : Bool :=
+  decide (s.world.updateRevision ≠ s.world.currentRevision) &&
+  (match s.world.wl with
+   | some wl => wl.partition.isSome
+   | none => false)
+
 /-! ### the oracle lists of the driver -/
 
 def stateOracles (u : User) (s : BS) : List (String × Bool) :=
